@@ -5,6 +5,7 @@ go 1.21
 require (
 	github.com/anishathalye/porcupine v1.3.0
 	github.com/varlink/go v0.0.0
+	go.etcd.io/gofail v0.2.0
 )
 
 replace github.com/varlink/go => /repo
